@@ -331,6 +331,11 @@ func Run(rng *rand.Rand, o Opts) *Outcome {
 			cid := fmt.Sprintf("%s-child%d", id, arng.IntN(2))
 			err = teardownDestroy(actx, st, ptr(res.TypeD, cid))
 			note("remove child %s err=%v", cid, err)
+		case p >= 98:
+			// a transient store fault: the next Destroy / Update issued by anybody (mostly the controllers) fails once
+			op := []string{"destroy", "destroy", "update"}[arng.IntN(3)]
+			px.FailNext(op, 1)
+			note("store will fail the next %s", op)
 		default:
 			if o.QTIgnoreWhile {
 				if arng.IntN(2) == 0 {
@@ -382,6 +387,7 @@ func Run(rng *rand.Rand, o Opts) *Outcome {
 	}
 
 	quiesce()
+	px.ClearFailures() // (an injected store fault nobody ran into must not hit the harness's own stage-2 operations)
 	out.Stage1 = px.ShadowAll()
 
 	// stage 2: remove every foreign finalizer; children of torn-down inputs are removed by their (external) owner when the
